@@ -173,14 +173,17 @@ pub fn run(ctx: &mut Ctx) {
                 (path, locations) must be identical across orders and equal to the reference executor. A case = one document with all its orders; non-trivial = >=3 gates with >=1 failing \
                 resolver, or gates inside list items; distinct by rendered case".into();
     ctx.assume("failing resolvers are injected only at nullable positions (two failing non-null siblings legitimately race under the specification)");
-    ctx.assume("repeated response keys are excluded while C04-F1 is open (separately executed occurrences have separate gates with the same label)");
     let z = build_z(|b| b);
     let zsch = z_sch(&z);
     let mut cfg = crate::c02::typed_cfg(ctx, "C05");
     cfg.ops = vec![OpKind::Query];
     cfg.max_depth = 3;
     cfg.max_width = 3;
-    cfg.repeats = false;
+    if ctx.open("C04-F1") {
+        // separately executed occurrences have separate gates with the same label
+        cfg.repeats = false;
+        ctx.excluded("C04-F1");
+    }
     let docs = ctx.tier.pick(1_000, 30_000);
     let counters = std::cell::Cell::new((0u64, 0u64));
     ctx.stream("all-orders-static", docs, 600, |s| case(s, &Flavour::Static(&z), &zsch, &cfg, true, &counters));
